@@ -154,6 +154,66 @@ def inherited_default_revalidated(ctx, rule):
         ctx.ok(rule, f, vn, "guard `%s`: %d abstract cases, falsy non-None defaults are treated like any other default" % (" / ".join(norm(t.ast) for t, _ in tests), n))
 
 
+def restorer_model(ctx, rule):
+    """_ParametersRestorer.__exit__ interpreted abstractly: leaving `with obj.param.update(...)` assigns back
+    EVERY recorded previous value (also one identical to the current value: that plain assignment is what ends a
+    temporary link and cancels a pending asynchronous reference) together with every remembered reference, in one
+    update, and forgets the record -- also when that update raises."""
+    from engine.absint import Interp, Obj, Unsupported, _Raise
+    from engine.loader import AnalysisError
+    ex = ctx.repo.method(P + "_ParametersRestorer", "__exit__")
+    prev_a, prev_b, ref_c = Obj("previous_value_of_a"), Obj("previous_value_of_b"), Obj("remembered_reference_of_c")
+    bad = None
+    n = 0
+    for same, fails in ((False, False), (True, False), (False, True)):
+        calls = []
+        cur = {"a": prev_a if same else Obj("temporary_value_of_a"), "b": Obj("temporary_value_of_b"), "c": Obj("temporary_value_of_c")}
+
+        def hook(fn, args, kwargs, calls=calls, fails=fails):
+            if fn.endswith("._update") or fn.endswith(".update") and fn.startswith("self._parameters"):
+                calls.append(dict(args[0]) if args and isinstance(args[0], dict) else dict(kwargs))
+                if fails:
+                    raise _Raise("ValueError")
+                return {}
+            if fn.endswith(".values"):
+                return dict(cur)
+            if fn == "getattr" and len(args) >= 2 and isinstance(args[1], str):
+                return cur.get(args[1], args[2] if len(args) > 2 else None)
+            return NotImplemented
+        params = Obj("namespace", self_or_cls=Obj("instance", **cur), __getitem__={k: Obj("P_" + k) for k in cur})
+        me = Obj("restorer", _parameters=params, _restore={"a": prev_a, "b": prev_b, "c": Obj("previous_value_of_c")}, _refs={"c": ref_c})
+        it = Interp(ctx.hier, dyn=P + "_ParametersRestorer", inline=lambda m: True, call_hook=hook)
+        try:
+            outs = it.run_all(ex, {ex.params[0]: me, ex.params[1]: None, ex.params[2]: None, ex.params[3]: None})
+        except Unsupported as e:
+            raise AnalysisError("absint cannot interpret _ParametersRestorer.__exit__: %s -- %s cannot decide" % (e, rule))
+        n += 1
+        if len(outs) != 1 or outs[0].imprecise:
+            raise AnalysisError("absint imprecise on _ParametersRestorer.__exit__ -- %s cannot decide" % rule)
+        desc = "leaving the block%s%s" % (" while `a` still holds the very object it held before" if same else "", ", the restoring update raises" if fails else "")
+        merged = {}
+        for c in calls:
+            merged.update(c)
+        want = {"a": prev_a, "b": prev_b, "c": ref_c}
+        if len(calls) != 1 or set(merged) != set(want) or any(merged[k] is not want[k] for k in want):
+            bad = "%s: the restorer assigns %s in %d update(s), specification: one update with the previous value of a and b and the remembered reference of c -- a value that looks unchanged must be " \
+                  "assigned back too: that plain assignment is what ends a temporary link and cancels a reference that is still pending" % (
+                      desc, {k: getattr(v, "name", v) for k, v in merged.items()}, len(calls))
+            break
+        if me.attrs["_restore"]:
+            bad = "%s: the record of previous values is kept (a second exit would restore stale values)" % desc
+            break
+        if fails != (outs[0].kind == "raise"):
+            bad = "%s: outcome %s" % (desc, outs[0].kind)
+            break
+    ctx.abstract_cases += n
+    if bad:
+        ctx.fail(rule, ex, ex.node, "update-context exit: " + bad, key=ex.qualname + "::restorer-model",
+                 input="with p.param.update(x=coro_fn): pass   (left while the coroutine is suspended) -> the late result overwrites the restored value")
+    else:
+        ctx.ok(rule, ex, ex.node, "3 abstract cases: every previous value and remembered reference is assigned back in one update, the record is cleared, also on failure")
+
+
 def syncing_set_replaced(ctx, rule):
     """_syncing must replace the syncing set by a fresh object and restore the saved one."""
 
@@ -351,6 +411,10 @@ def memo_not_mutated_in_place(ctx, rule):
                          or any(k.arg == "instance" and isinstance(k.value, ast.Constant) and k.value.value is False for k in v.keywords)))
                 if is_memo:
                     handed[st.targets[0].id] = norm(v)
+        for _ in range(3):          # plain aliases of the memo are the memo too (params = kls_params)
+            for st in ast.walk(f.node):
+                if isinstance(st, ast.Assign) and len(st.targets) == 1 and isinstance(st.targets[0], ast.Name) and isinstance(st.value, ast.Name) and st.value.id in handed:
+                    handed.setdefault(st.targets[0].id, handed[st.value.id])
         if not handed:
             continue
         rebound = {nm for nm in handed if sum(1 for st in ast.walk(f.node) if isinstance(st, (ast.Assign, ast.AugAssign))
